@@ -68,10 +68,20 @@ class TracedWorld(World):
             probe.clear_controller()
 
 
-def make_tuple(rng):
+def make_tuple(rng, halgo=None, contents=None):
     a = adversarial_id(rng, 40)
     r = rng.random()
-    if r < 0.6:
+    if halgo is not None and r < 0.12:
+        # identifiers DERIVED from the store's own names: the digest of another pid (= the name of its reference
+        # file), the cid of a stored content, the name of a metadata document, a sharded path of a cid
+        import hashlib
+        h = lambda t: hashlib.new(halgo, t.encode("utf-8")).hexdigest()
+        cidx = hashlib.new(halgo, contents["X"]).hexdigest()
+        pool = [h(a), cidx, hashlib.new(halgo, contents["Y"]).hexdigest(), h(a + "f1"), cidx[:2] + "/" + cidx[2:4] + "/" + cidx[4:],
+                "refs/cids/" + cidx, h(a).upper(), cidx + "_delete"]
+        rng.shuffle(pool)
+        ids = [a] + pool[:2]
+    elif r < 0.6:
         rel = relatives(rng, a)
         rng.shuffle(rel)
         ids = [a] + rel[:2]
@@ -167,8 +177,9 @@ def run_shard(n, sub_seed, locale_mode=None):
             with open(os.path.join(sbx, "cwd", "canary"), "w") as f:
                 f.write("canary")
             os.chdir(os.path.join(sbx, "cwd"))
-            ids, fmts = make_tuple(rng)
             algo = rng.choice(STORE_ALGOS)
+            from ..common import HASHLIB_OF
+            ids, fmts = make_tuple(rng, HASHLIB_OF[algo], contents)
             w = TracedWorld(sbx, contents, docs, pids=ids, fmts=fmts, algo=algo, depth=rng.choice([1, 3]),
                             width=rng.choice([1, 2]), store_dir="store", datadir=os.path.join(sbx, "data"))
             for c in contents:
